@@ -151,6 +151,10 @@ def build(e, sp, subst=None, matmul=False):
         return subst[t](sp)
     if t == 'swap':
         return SwapOp(V)
+    if t == 'rpart':
+        return odl.RealPart(V)
+    if t == 'linfn':
+        return odl.solvers.FunctionalQuadraticPerturb(odl.solvers.ZeroFunctional(V), linear_term=sp.vec(e['v']))
     if t == 'id':
         return odl.IdentityOperator(V)
     if t == 'scale':
